@@ -4,7 +4,7 @@
 
 use crate::cage::Cage;
 use crate::common::*;
-use crate::elem::{Key, Val};
+use crate::elem::{Cls, Key, Val};
 use crate::exec::*;
 use crate::ledger::{self, Kind};
 use micromap::{Map, Set};
@@ -16,12 +16,12 @@ use std::io::Write;
 
 pub struct Gen {
     pub rng: StdRng,
-    pub classes: u8,
+    pub classes: Cls,
     pub vals: u8,
 }
 
 impl Gen {
-    fn class(&mut self, present: &[u8]) -> u8 {
+    fn class(&mut self, present: &[Cls]) -> Cls {
         // half of the time a key that is present, so that hits and misses are both common
         if !present.is_empty() && self.rng.gen_bool(0.5) {
             present[self.rng.gen_range(0..present.len())]
@@ -29,7 +29,7 @@ impl Gen {
             self.rng.gen_range(0..self.classes)
         }
     }
-    fn k(&mut self, present: &[u8], j: i64) -> Value {
+    fn k(&mut self, present: &[Cls], j: i64) -> Value {
         json!({"kt": ARG + j, "c": self.class(present), "r": self.rng.gen_range(0..2)})
     }
     fn v(&mut self, j: i64) -> Value {
@@ -53,8 +53,8 @@ impl Gen {
         op["fin"] = json!(f);
         op["j"] = json!(j);
     }
-    fn keep(&mut self, present: &[u8]) -> Value {
-        let mut k: Vec<u8> = vec![];
+    fn keep(&mut self, present: &[Cls]) -> Value {
+        let mut k: Vec<Cls> = vec![];
         for c in 0..self.classes {
             let p = if present.contains(&c) { 0.6 } else { 0.3 };
             if self.rng.gen_bool(p) {
@@ -71,9 +71,17 @@ impl Gen {
         }
     }
 
-    pub fn map_op(&mut self, present: &[u8], cap: usize) -> Value {
+    pub fn map_op(&mut self, present: &[Cls], cap: usize) -> Value {
         let len = present.len();
-        let x = self.rng.gen_range(0..100);
+        // large containers: fill them up first (mostly fresh keys), then stay near the top
+        if cap > 16 && len < cap - 4 && self.rng.gen_bool(0.85) {
+            let c = self.rng.gen_range(0..self.classes);
+            return json!({"name": "insert", "k": {"kt": ARG + 1, "c": c, "r": 0}, "v": self.v(1)});
+        }
+        let mut x = self.rng.gen_range(0..100);
+        if cap > 16 && (x == 62 || x == 63 || (64..=79).contains(&x)) && self.rng.gen_bool(0.9) {
+            x = 40; // large containers: emptying calls (clear, drop, drain, consuming cursors) only rarely
+        }
         match x {
             0..=21 => {
                 let nm = ["insert", "insert", "insert_key_value", "checked_insert"][self.rng.gen_range(0..4)];
@@ -121,13 +129,16 @@ impl Gen {
             }
             _ => {
                 let j = self.rng.gen_range(0..=4usize.min(cap + 1));
-                let ks: Vec<u8> = (0..j).map(|_| self.class(present)).collect();
-                json!({"name": "disjoint", "ks": ks, "w": self.w(), "unchecked": false})
+                let ks: Vec<Cls> = (0..j).map(|_| self.class(present)).collect();
+                // inside its contract (pairwise different keys) the unsafe variant is exercised too
+                let distinct = (0..ks.len()).all(|a| (a + 1..ks.len()).all(|b| ks[a] != ks[b]));
+                let unchecked = distinct && self.rng.gen_bool(0.4);
+                json!({"name": "disjoint", "ks": ks, "w": self.w(), "unchecked": unchecked})
             }
         }
     }
 
-    pub fn set_op(&mut self, present: &[u8], _cap: usize) -> Value {
+    pub fn set_op(&mut self, present: &[Cls], _cap: usize) -> Value {
         let len = present.len();
         let x = self.rng.gen_range(0..100);
         match x {
@@ -224,7 +235,7 @@ fn run_map<const N: usize>(g: &mut Gen, steps: usize, out: &mut impl Write) -> (
     writeln!(out, "{}", json!({"o": {"name": "reset"}, "n": N, "mode": "map"})).unwrap();
     for _ in 0..steps {
         let pre = observe_map(&cage.m);
-        let present: Vec<u8> = pre.iter().map(|(k, _)| k.class).collect();
+        let present: Vec<Cls> = pre.iter().map(|(k, _)| k.class).collect();
         let mut op = g.map_op(&present, N);
         let mut ctx = Ctx::new(false);
         for (idx, (k, v)) in pre.iter().enumerate() {
@@ -303,7 +314,7 @@ fn run_set<const N: usize>(g: &mut Gen, steps: usize, out: &mut impl Write) -> (
     writeln!(out, "{}", json!({"o": {"name": "reset"}, "n": N, "mode": "set"})).unwrap();
     for _ in 0..steps {
         let pre = observe_set(&cage.m);
-        let present: Vec<u8> = pre.iter().map(|k| k.class).collect();
+        let present: Vec<Cls> = pre.iter().map(|k| k.class).collect();
         let op = g.set_op(&present, N);
         let mut ctx = Ctx::new(true);
         for (idx, k) in pre.iter().enumerate() {
@@ -351,7 +362,7 @@ fn run_set<const N: usize>(g: &mut Gen, steps: usize, out: &mut impl Write) -> (
 }
 
 /// `runs` histories of `steps` calls each, capacities drawn from `caps`
-pub fn record(path: &str, set_mode: bool, seed: u64, runs: usize, steps: usize, caps: &[usize], classes: u8) -> Value {
+pub fn record(path: &str, set_mode: bool, seed: u64, runs: usize, steps: usize, caps: &[usize], classes: Cls) -> Value {
     let mut out = std::io::BufWriter::new(std::fs::File::create(path).expect("trace file"));
     let mut g = Gen { rng: StdRng::seed_from_u64(seed), classes, vals: 3 };
     let (mut events, mut panics) = (0u64, 0u64);
